@@ -90,8 +90,16 @@ def linearize(e, subst=None, ren=None):
         return Lin({e["name"]: 1})
     if k == "cast":
         return linearize(e["e"], subst, ren)
+    if k == "paren":
+        return linearize(e["e"], subst, ren)
     if k == "bin":
         op = e["op"]
+        if op == "=" and e["l"]["k"] == "ref":
+            # the value of an assignment is the new value of its target (the store is applied
+            # before the enclosing expression is looked at)
+            if subst and e["l"]["name"] in subst:
+                return subst[e["l"]["name"]]
+            return linearize(e["r"], subst, ren)
         if op in ("+", "-"):
             a, b = linearize(e["l"], subst, ren), linearize(e["r"], subst, ren)
             if a is None or b is None:
@@ -112,6 +120,16 @@ def linearize(e, subst=None, ren=None):
                 return Lin(k=int(a.k / b.k))
             return Lin({key(e, ren): 1})
         return Lin({key(e, ren): 1})
+    if k == "un" and e["op"] == "&" and e["e"]["k"] == "sub":
+        # &a[i] is a + i (pointer arithmetic in elements, as C's own a + i and p - q are)
+        b_, i_ = e["e"]["base"], e["e"]["idx"]
+        while b_["k"] == "cast":
+            b_ = b_["e"]
+        if b_["k"] == "ref":
+            a = linearize(b_, subst, ren)
+            i = linearize(i_, subst, ren)
+            if a is not None and i is not None:
+                return a + i
     if k == "un" and e["op"] == "-":
         a = linearize(e["e"], subst, ren)
         return a.scale(-1) if a is not None else None
